@@ -32,6 +32,7 @@ def cases(tier):
         out.append(f"seq/{ssm}/k2/s1")
         out.append(f"grid/{ssm}/k2/s0")
     out.append("seq/dense/k2/s2")
+    out.append("seq/blockdiag/k2/s3")
     if tier == "thorough":
         for ssm in cm.SSMS:
             out.append(f"seq/{ssm}/k3/s1")
@@ -41,7 +42,7 @@ def cases(tier):
 
 def build(case_id):
     kind, ssm, k, s = case_id.split("/")
-    nk = int(k[1:]); shape = {"s0": (), "s1": (2,), "s2": (2, 2)}[s]
+    nk = int(k[1:]); shape = {"s0": (), "s1": (2,), "s2": (2, 2), "s3": (1, 2)}[s]
     n, d = 2, 2
     N = n * d
 
@@ -62,7 +63,7 @@ def build(case_id):
         prior_s.init = Normal(mT, LT, tf)
         make.sym = {"prior_c": prior_c, "pinfo": pinfo, "cfg": cfg}
 
-        def fn(rvT, conds, hs, prior):
+        def fn(rvT, conds, hs, prior, pin):
             orig = pdrandom.normal
 
             def fake(key, /, shape, dtype=None):
@@ -88,16 +89,21 @@ def build(case_id):
 
         def run_forced(args_f, which):
             """the REAL sampler (eager), with the k-th scalar normal draw forced to one and all others to zero"""
-            (rvT, conds_f, hs_f, prior_f) = args_f
+            (rvT, conds_f, hs_f, prior_f, _pin) = args_f
             orig = pdrandom.normal
             counter = [0]
+            slots = {}      # draws are a function of the key: equal keys get the same (forced) draw
 
             def forced(key, /, shape, dtype=None):
                 size = int(np.prod(shape)) if len(shape) else 1
+                kb = (np.asarray(jax.random.key_data(key) if jnp.issubdtype(key.dtype, jax.dtypes.prng_key) else key).tobytes(), tuple(shape))
+                if kb not in slots:
+                    slots[kb] = counter[0]
+                    counter[0] += size
+                base = slots[kb]
                 v = np.zeros((size,))
-                if which is not None and counter[0] <= which < counter[0] + size:
-                    v[which - counter[0]] = 1.0
-                counter[0] += size
+                if which is not None and base <= which < base + size:
+                    v[which - base] = 1.0
                 return jnp.asarray(v.reshape(shape))
             pdrandom.normal = forced
             try:
@@ -114,17 +120,27 @@ def build(case_id):
             finally:
                 pdrandom.normal = orig
             return [np.asarray(x) for x in smp], counter[0]
+        def run_shape(args_f):
+            """the REAL sampler with the real PRNG: only the shapes of the result"""
+            (rvT, conds_f, hs_f, prior_f, _pin) = args_f
+            cs = [Cond(jnp.asarray(A), Normal(jnp.asarray(b), jnp.asarray(Q), tf), to_latent=jnp.asarray(tl),
+                       to_observed=jnp.asarray(to)) for (A, b, Q, tl, to) in conds_f]
+            stacked = jax.tree_util.tree_map(lambda *xs: jnp.stack(xs), *cs)
+            seq = MarkovSequence(Normal(jnp.asarray(rvT[0]), jnp.asarray(rvT[1]), tf), stacked, reverse=True)
+            smp = seq.sample(pdrandom.prng_key(seed=3), shape=shape)
+            return [tuple(np.shape(x)) for x in smp]
         make.run_forced = run_forced
-        return fn, ((mT, LT), conds, hs, prior_s)
+        make.run_shape = run_shape
+        return fn, ((mT, LT), conds, hs, prior_s, {"q1": pinfo["q1"], "lam": pinfo["lam"]})
 
     def oracle(args, orc):
         """exact joint law of the chain in dense coordinates: means and Cov(x_j, x_l), j <= l"""
-        (mT, LT), conds, hs, prior = args
+        (mT, LT), conds, hs, prior, pin = args
         sym = make.sym
         K = nk
         mean = [None] * (K + 1); cov = {}
         if kind == "grid":
-            A, Q = sc.prior_dense(orc, sym["cfg"], sym["prior_c"], sym["pinfo"])
+            A, Q = sc.prior_dense(orc, sym["cfg"], sym["prior_c"], pin)
             m0, P0 = cm.dense_rv_raw(orc, ssm, mT, LT, d)
             mean[0] = m0; cov[(0, 0)] = P0
             trans = []
@@ -164,6 +180,13 @@ def build(case_id):
         def sample_vec(idx, t):
             return np.array([S[i][idx + (t, a)] for i in range(n) for a in range(d)], dtype=object)
         res = {}
+        want_shape = tuple(shape) + (K + 1, d)
+        got = [tuple(np.shape(x)) for x in S]
+        res["requested sample shape is prepended to (time, state) shape"] = (
+            orc.arr(np.asarray([float(v) for g in got for v in (g + (0,) * 6)[:6]])),
+            orc.arr(np.asarray([float(v) for g in got for v in (want_shape + (0,) * 6)[:6]])))
+        if any(g != want_shape for g in got):
+            return res
         idxs = list(np.ndindex(*shape)) if shape else [()]
         zsets = []
         for idx in idxs:
@@ -241,9 +264,13 @@ class SCase(DCase):
         worst = {"ok": bool(ok1 and ok2), "max_abs_err": max(e1, e2), "impl": m_impl.tolist()[:8] + C_impl.reshape(-1).tolist()[:8],
                  "oracle": m_or.tolist()[:8] + C_or.reshape(-1).tolist()[:8]}
 
+        shp = self.make.run_shape(af) if kind != "grid" else None
+        want = tuple({"s0": (), "s1": (2,), "s2": (2, 2), "s3": (1, 2)}[s]) + (K + 1, d)
+        shape_rep = {"ok": shp is None or all(g == want for g in shp), "max_abs_err": 0.0, "impl": [str(shp)], "oracle": [str(want)]}
+
         class _All(dict):
             def __missing__(self, key):
-                return worst
+                return shape_rep if key.startswith("requested sample shape") else worst
         return _All()
 
 
